@@ -55,6 +55,7 @@ def B(name):
 
 
 ONE = Space('one', 'one')
+IMPRECISE = ('Slice', 'Diff', 'Range', 'Choice')
 
 
 class Ix:
@@ -246,11 +247,19 @@ class Shape:
 
     def result(self, fi, env):
         rets = self.run(fi, env)
+        # the main result is the LAST return that is informative (early returns are guards: `return {}`, `return None`, ...)
         out = None
-        for node, v in rets:
-            if isinstance(v, NoneT) and any(not isinstance(x, NoneT) for _, x in rets):
+        for node, v in reversed(rets):
+            if isinstance(v, NoneT) or is_unk(v):
                 continue
-            out = v if out is None or is_unk(out) else out
+            if isinstance(v, DictT) and is_unk(v.key) and is_unk(v.val):
+                continue
+            out = v
+            break
+        if out is None:
+            for node, v in reversed(rets):
+                if not isinstance(v, NoneT):
+                    return v
         return out if out is not None else NoneT()
 
     # ------------------------------------------------------------------ expressions
@@ -366,6 +375,8 @@ class Shape:
     # ---- arithmetic
     def ev_BinOp(self, e, env):
         l, r = self.ev(e.left, env), self.ev(e.right, env)
+        if isinstance(l, Tup) and isinstance(r, Tup) and isinstance(e.op, ast.Add):
+            return Tup(l.items + r.items)
         le, re_ = elem_of(l), elem_of(r)
         op = e.op
         el = UNK
@@ -464,6 +475,8 @@ class Shape:
                 out.append(a)
             elif is_unk(a) or is_unk(b):
                 out.append(UNK)
+            elif (a.kind in IMPRECISE or b.kind in IMPRECISE) and a.root() is b.root():
+                out.append(UNK)         # parts of the same axis whose extents are not tracked: no verdict
             else:
                 if (a.kind == 'Prefix' and a.parent is b) or (b.kind == 'Prefix' and b.parent is a):
                     self.report('extent', node, 'arrays over %s and %s are combined elementwise: the first stops at the highest id that occurs '
@@ -785,7 +798,8 @@ class Shape:
             if isinstance(a0, Arr) and len(args) == 1:
                 out = []
                 for ax in a0.axes:
-                    r = Arr((Space('Sub', a0.vid, ax, mask=getattr(a0, 'mask', None)),), Ix(ax))
+                    tgt = ax.parent if (not is_unk(ax) and ax.kind == 'Prefix') else ax     # positions in a bincount are the ids themselves
+                    r = Arr((Space('Sub', a0.vid, ax, mask=getattr(a0, 'mask', None)),), Ix(tgt))
                     r.sorted = len(a0.axes) == 1
                     out.append(r)
                 return out[0] if np_ == 'flatnonzero' else Tup(out)
